@@ -492,6 +492,8 @@ var extPrograms = []work.Program{
 	{Text: `items.(p.$xctx() & $string($xfault(q)))`, Family: "ext"},
 	{Text: `($f := $xfault; $f(name))`, Family: "ext"},
 	{Text: `$xfault(?)(name)`, Family: "ext"},
+	{Text: NestedCtxProbe, Family: "ext"},
+	{Text: `items.p.$xboth($$.name.$xboth(2))`, Family: "ext"},
 	{Text: `name.$xboth(nosuch)`, Family: "ext"},
 	{Text: `$xboth(nosuch)`, Family: "ext"},
 	{Text: `items.p.$xboth(1)`, Family: "ext"},
@@ -684,6 +686,13 @@ func (g *gen) clock(spec *Spec) {
 		}
 		priv := 0
 		n := g.w.Range(2, 6)
+		if g.w.Chance(1, 4) {
+			// a burst: many evaluations of one Expr less than a millisecond apart
+			e := spec.Exprs[g.w.Intn(ne)].ID
+			for k := g.w.Range(5, 12); k > 0; k-- {
+				ops = append(ops, Op{Kind: "eval", Expr: e}, Op{Kind: "usleep", Version: g.w.Range(200, 900)})
+			}
+		}
 		for i := 0; i < n; i++ {
 			switch c := g.w.Intn(6); {
 			case c == 0:
